@@ -20,6 +20,9 @@ package hashring
 //@   ensures forall j string :: hrLive(r, j) == (j == key || old(hrLive(r, j)))
 //@   ensures r.members[key] == value
 //@   ensures forall j string :: j != key && hrLive(r, j) ==> r.members[j] == old(r.members[j])
+//@ -- whenever Insert touches the table of virtual nodes it marks it unsorted, so that the next Lookup re-sorts it
+//@ -- by (position, key): the elected owner cannot depend on the order in which members were inserted
+//@   ensures r.entries != old(r.entries) ==> !r.sorted
 //@ func (*Ring).Remove
 //@   property C45
 //@   option safety off
